@@ -188,15 +188,20 @@ def run(chk, replay=None):
     model = core.run_lines(FAM.runner, lines, timeout=1500) if os.path.exists(FAM.runner) else None
     chk.cov["wall_model"] = round(time.time() - t0, 2)
     failing, mism, src_model = [], [], []
+    compared = Counter()      # counted where the comparisons happen
     groups = {}
     for prof, b in bins:
         impl = core.run_lines(b, lines, timeout=900)
         for idx, ((c, canon, kind, grp), o) in enumerate(zip(cases, impl)):
             why = oracle(o, canon)
+            if canon is not None:
+                compared["source_vs_impl_" + prof] += 1
             if why:
                 failing.append((c, canon, kind, "%s [%s build]" % (why, prof), o))
             if grp is not None and prof == "debug":
                 groups.setdefault(grp, set()).add(o.split(" ", 2)[2] if o.startswith("OK 0 ") else o)
+            if model is not None:
+                compared["model_vs_impl_" + prof] += 1
             if model is not None and c16.norm(o) != c16.norm(model[idx]):
                 mism.append((c, kind, o, model[idx], prof))
     for grp, trees in groups.items():
@@ -204,6 +209,8 @@ def run(chk, replay=None):
             failing.append(("", None, "layout", "the same document parses differently under different layouts (group %d)" % grp, ""))
     if model is not None:
         for (c, canon, kind, grp), m in zip(cases, model):
+            if canon is not None:
+                compared["source_vs_model"] += 1
             if canon is not None and m != "OK 0 " + canon:
                 src_model.append((c, canon, kind, m))
     # the Coq printer against the Python printer
@@ -214,7 +221,8 @@ def run(chk, replay=None):
         c = cases[i][0]
         chk.sample(dict(case=c[:160] + ("..." if len(c) > 160 else ""), kind=cases[i][2], expected=(cases[i][1] or "")[:160]))
     sizes = [(len(c.split(" ")[1]) // 2 if c.split(" ")[1] != "-" else 0) for c in lines]
-    chk.cov["disagreements_checked"] = len(cases) * len(bins)
+    chk.cov["disagreements_checked"] = sum(compared.values())
+    chk.cov["compared"] = dict(compared, cases=len(cases))
     chk.cov["model_impl_mismatches"] = len(mism)
     chk.cov["source_model_mismatches"] = len(src_model)
     chk.cov["layout_groups"] = len(groups)
